@@ -143,7 +143,12 @@ def judge_model(ctx, case, resp):
     mh = h(case["xml"])
     for l in model_labels(m):
         ctx.classes[l] += 1
-    if "panic" in r or "died" in r or "timeout" in r:
+    if "timeout" in r and "panic" not in r and "died" not in r:
+        # a generated model can be legitimately slow (a decision's list result fed into a service that iterates over it again: the
+        # iteration domains multiply); totality and hangs are C05's / C12's subject: counted, not judged
+        ctx.note(key=mh, labels=["timeout: not judged (slow generated model; hangs are C05/C12's subject)"])
+        return None
+    if "panic" in r or "died" in r:
         ctx.note(key=mh, labels=["crash(C05/C12)"])
         return Fail("C04/crash@%s" % r.get("location", "?"), "model evaluation crashed: %r\n%s" % (r, case["xml"]))
     if "parse_err" in r or "error" in r:
@@ -210,7 +215,7 @@ DEVIATIONS = [("fd_null", "C04/boxed-function-definition", lambda m: model_has_f
               ("bkm_service_value", "C04/bkm-requires-service-bound-to-value",
                lambda m: any(idx_kind(m, r) == "service" for b in m["bkms"] for r in b["reqK"])),
               ("ctx_flat", "C04/nested-context-entries-leak", lambda m: True),
-              ("inv_omitted", "C04/omitted-binding-resolves-in-the-invoking-scope", lambda m: True)]
+              ("inv_omitted", "C04/knowledge-model-sees-the-invoking-scope", lambda m: True)]
 
 
 def diagnose(ctx, case, name, inp, got, want, kind, form, labels):
